@@ -386,6 +386,11 @@ func (f *FnEnc) call(c *ssa.CallCommon, v ssa.Value, pos token.Pos) Val {
 	if f.fieldPtrArgs(args, sig, name) {
 		ws.all = true
 	}
+	for _, a := range c.Args {
+		if sl, ok := a.Type().Underlying().(*types.Slice); ok && f.viewElem[typeKey(sl.Elem().Underlying())] {
+			ws.all = true // the slice may view a repo array field; the callee may write through it
+		}
+	}
 	if ws.all {
 		f.st = e.havocState(f.st, nil)
 	} else {
@@ -407,16 +412,8 @@ func (f *FnEnc) valOrNil(v ssa.Value) (r Val) {
 }
 
 func (f *FnEnc) checkEscapes(args []Val, callee string) {
-	for _, a := range args {
-		switch av := a.(type) {
-		case SliceV:
-			for _, vw := range f.arrViews {
-				if strings.Contains(av.Base.S, vw) {
-					f.setTaint("slice view of a non-local array passed to " + callee)
-				}
-			}
-		}
-	}
+	// slices viewing non-local arrays: a callee with unknown effects may write through them.
+	// (All such callees havoc the cell components; the unit array values are havocked with them.)
 }
 
 // fieldPtrEscapes: the address of a scalar struct field is passed to a callee whose effects are
@@ -434,7 +431,7 @@ func (f *FnEnc) fieldPtrArgs(args []Val, sig *types.Signature, callee string) bo
 		rs := sig.Results()
 		for i := 0; i < rs.Len(); i++ {
 			if p, ok := rs.At(i).Type().Underlying().(*types.Pointer); ok && types.Identical(p.Elem(), ft) {
-				f.e.unsup("address of scalar field passed to %s which returns a pointer of the same type", callee)
+				f.e.hazard("address of scalar field passed to %s which returns a pointer of the same type", callee)
 			}
 		}
 	}
@@ -1110,10 +1107,8 @@ func (f *FnEnc) builtinCopy(c *ssa.CallCommon, hint string) Val {
 	}
 	n := e.define(hint, tIte(tLe(dst.Len, sl), dst.Len, sl))
 	st := c.Args[0].Type().Underlying().(*types.Slice)
-	for _, vw := range f.arrViews {
-		if strings.Contains(dst.Base.S, vw) {
-			f.setTaint("copy into a slice view of a non-local array")
-		}
+	if f.viewElem[typeKey(st.Elem().Underlying())] {
+		f.setTaint("copy into " + st.String() + " while a non-local array of that element type is viewed elementwise")
 	}
 	comps := e.elemComps(st.Elem())
 	if comps == nil || !srcIsSlice {
